@@ -1,8 +1,394 @@
-"""C06 — bounded run-time contracts only so far (proof obligations for the cell-function lemmas are added in build())."""
-from contracts._bounded_only import make_main
+"""C06 — atom-in-molecule weights form a partition of unity (DESIGN 8, C06).
 
-main = make_main("C06", ["bounded layer only: real functions under executable postconditions on a generated family (rtc/C06.py); nothing is proved"])
+Proved from the real code:
+  _switch_func      loop invariant x in [-1, 1] for EVERY order (symbolic trip count); step lemmas: the step polynomial is odd, fixes +-1
+                    and is monotone on [-1, 1]  (=> the iterate is odd, monotone, fixes +-1: induction over the proved step facts)
+  _calculate_alpha  |alpha_AB| <= cutoff and alpha_BA = -alpha_AB for any number of atoms and positive radii
+  lemmas            |mu| <= 1 and |a| <= 0.45  =>  nu = mu + a (1 - mu^2) in [-1, 1];  mu_BA = -mu_AB (code terms)
+  generate_weights / compute_atom_weight, executed on 2 and 3 atoms (symbolic coordinates, radii, points; the switching function enters
+                    through its proved contract): every weight in [0, 1], weights of all atoms sum to one, own nucleus 1 / other nuclei 0,
+                    the nan diagonal is replaced by exactly 1, both routes give the same term
+  __call__          the segment table handed to generate_weights for a chunk, (indices - ibegin).clip(min=0), selects for every local
+                    point j the atom that owns the global point ibegin + j (symbolic N, M, chunk start), and the chunk is the right slice
+Bounded layer (rtc/C06.py): everything end-to-end incl. chunking with several chunks, invariances, Hirshfeld.
+"""
+from __future__ import annotations
+
+import ast
+from fractions import Fraction
+
+import z3
+
+from pyvc import framework
+from pyvc import interp as I
+from pyvc import npmodel as M
+from pyvc import terms as T
+
+MOD = "grid.becke"
+IS, RS = z3.IntSort(), z3.RealSort()
+F = z3.Function("switch", RS, RS)       # contract of _switch_func (any order >= 0): odd, [-1,1] -> [-1,1], fixes +-1
+
+
+def switch_contract_facts(args):
+    out = []
+    for a in args:
+        out += [z3.Implies(z3.And(a >= -1, a <= 1), z3.And(F(a) >= -1, F(a) <= 1)), F(-a) == -F(a), z3.Implies(a == 1, F(a) == 1), z3.Implies(a == -1, F(a) == -1)]
+    return out
+
+
+def switch_func(chk):
+    eng = chk.eng
+    cls = eng.get_class(MOD, "BeckeWeights")
+    fq = f"{MOD}.BeckeWeights._switch_func"
+    x0 = z3.Real("x0")
+    order = z3.Int("order")
+
+    def inv(fr, k):
+        x = T.zr(fr.load_name("x"))
+        return z3.And(x >= -1, x <= 1, z3.Implies(x0 == 1, x == 1), z3.Implies(x0 == -1, x == -1))
+    eng.loop_specs[(fq, 1)] = I.LoopSpec(inv, name="iterations")
+
+    def thunk(eng_):
+        eng_.assume(z3.And(x0 >= -1, x0 <= 1, order >= 0))
+        return eng_.call_method(I.Obj(cls), "_switch_func", x0, order)
+    for o in chk.explore("_switch_func", thunk, func=fq):
+        chk.add_from_path("_switch_func", o, func=fq, meta={"replay": {"what": "switch"}})
+        if o.kind == "return":
+            v = T.zr(o.value)
+            chk.add("_switch_func/post/range-and-fixed-points", list(o.pc), z3.And(v >= -1, v <= 1, z3.Implies(x0 == 1, v == 1), z3.Implies(x0 == -1, v == -1)),
+                    func=fq, meta={"replay": {"what": "switch"}})
+    eng.loop_specs.pop((fq, 1), None)
+    # one step of the real loop body (order = 1): odd, monotone on [-1, 1]
+    x, y = z3.Reals("x y")
+
+    def one(eng_, arg):
+        return eng_.call_method(I.Obj(cls), "_switch_func", arg, 1)
+    px = T.zr(eng.explore(lambda e: one(e, x))[0].value)
+    pmx = T.zr(eng.explore(lambda e: one(e, -x))[0].value)
+    py = T.zr(eng.explore(lambda e: one(e, y))[0].value)
+    chk.add("_switch_func/lemma/step-is-odd", [], pmx == -px, kind="lemma", func=fq, meta={"replay": {"what": "switch"}})
+    chk.add("_switch_func/lemma/step-is-monotone-on-[-1,1]", [x >= -1, y <= 1, x <= y], px <= py, kind="lemma", func=fq, meta={"replay": {"what": "switch"}})
+    chk.add("_switch_func/lemma/order-zero-is-identity", [], T.zr(eng.explore(lambda e: e.call_method(I.Obj(cls), "_switch_func", x, 0))[0].value) == x,
+            kind="lemma", func=fq, meta={"replay": {"what": "switch"}})
+
+
+def calculate_alpha(chk):
+    eng = chk.eng
+    cls = eng.get_class(MOD, "BeckeWeights")
+    fq = f"{MOD}.BeckeWeights._calculate_alpha"
+    Rad = z3.Function("radius", IS, RS)
+    m, a, b = z3.Ints("M a b")
+
+    def thunk(eng_):
+        eng_.assume(z3.And(m >= 1, a >= 0, a < m, b >= 0, b < m, Rad(a) > 0, Rad(b) > 0))
+        radii = I.Arr((m,), lambda i: Rad(T.zi(i)), "real")
+        al = eng_.call_method(I.Obj(cls), "_calculate_alpha", radii)
+        return al.fn(a, b), al.fn(b, a), al.shape
+    for o in chk.explore("_calculate_alpha", thunk, func=fq):
+        if o.kind != "return":
+            continue
+        ab, ba, shape = o.value
+        ab, ba = T.zr(ab), T.zr(ba)
+        cut = z3.RealVal("45/100")
+        chk.add("_calculate_alpha/post/bounded-by-cutoff", list(o.pc), z3.And(ab <= cut, ab >= -cut), func=fq, meta={"replay": {"what": "alpha"}})
+        chk.add("_calculate_alpha/post/antisymmetric", list(o.pc), ba == -ab, func=fq, meta={"replay": {"what": "alpha"}})
+        chk.add("_calculate_alpha/post/shape", list(o.pc), z3.And(shape[0] == m, shape[1] == m), func=fq, meta={"replay": {"what": "alpha"}})
+        chk.add("_calculate_alpha/post/zero-for-equal-radii", list(o.pc) + [Rad(a) == Rad(b)], ab == 0, func=fq, meta={"replay": {"what": "alpha"}})
+
+
+def nu_lemmas(chk):
+    mu, al = z3.Reals("mu alpha")
+    nu = mu + al * (1 - mu * mu)
+    chk.add("lemma/nu-in-range", [mu >= -1, mu <= 1, al >= z3.RealVal("-45/100"), al <= z3.RealVal("45/100")], z3.And(nu >= -1, nu <= 1), kind="lemma",
+            func=f"{MOD}.BeckeWeights.generate_weights", meta={"replay": {"what": "nu"}})
+    chk.add("lemma/nu-odd", [], (-mu) + (-al) * (1 - (-mu) * (-mu)) == -nu, kind="lemma", func=f"{MOD}.BeckeWeights.generate_weights", meta={"replay": {"what": "nu"}})
+    chk.add("lemma/nu-fixed-at-ends", [], z3.And(z3.substitute(nu, (mu, z3.RealVal(1))) == 1, z3.substitute(nu, (mu, z3.RealVal(-1))) == -1), kind="lemma",
+            func=f"{MOD}.BeckeWeights.generate_weights", meta={"replay": {"what": "nu"}})
+    # |mu| <= 1: reverse triangle inequality | |p-A| - |p-B| | <= |A-B| (three-step chain, vectors in R^3)
+    u = z3.Reals("u1 u2 u3")
+    v = z3.Reals("v1 v2 v3")
+    nu_, nv_, nd_ = z3.Reals("norm_u norm_v norm_d")
+    dot = sum(a_ * b_ for a_, b_ in zip(u, v))
+    uu = sum(a_ * a_ for a_ in u)
+    vv = sum(a_ * a_ for a_ in v)
+    dd = sum((a_ - b_) * (a_ - b_) for a_, b_ in zip(u, v))
+    hy = [nu_ >= 0, nv_ >= 0, nd_ >= 0, nu_ * nu_ == uu, nv_ * nv_ == vv, nd_ * nd_ == dd]
+    chk.chain("lemma/reverse-triangle-inequality", hy,
+              [("cauchy-schwarz-squared", dot * dot <= uu * vv), ("dot-below-norm-product", dot <= nu_ * nv_),
+               ("squared", (nu_ - nv_) * (nu_ - nv_) <= nd_ * nd_)],
+              z3.And(nu_ - nv_ <= nd_, nv_ - nu_ <= nd_), kind="lemma", func=f"{MOD}.BeckeWeights.generate_weights", meta={"replay": {"what": "nu"}})
+
+
+def weights_small(chk, natoms):
+    """generate_weights / compute_atom_weight on `natoms` atoms with symbolic geometry; _switch_func through its contract."""
+    eng = chk.eng
+    cls = eng.get_class(MOD, "BeckeWeights")
+    fqg = f"{MOD}.BeckeWeights.generate_weights"
+    fqa = f"{MOD}.BeckeWeights.compute_atom_weight"
+    A = [[z3.Real(f"A{k}{c}") for c in range(3)] for k in range(natoms)]
+    Rr = [z3.Real(f"R{k}") for k in range(natoms)]
+    P = [z3.Real(f"p{c}") for c in range(3)]
+    used = []
+
+    def sw(eng_, f, args, kwargs):
+        x = args[0]
+        g = x.fn
+
+        def fn(*i):
+            v = g(*i)
+            if isinstance(v, float):
+                return v            # nan on the diagonal propagates
+            v = T.zr(v)
+            used.append(v)
+            return F(v)
+        return I.Arr(x.shape, fn, "real")
+
+    def mk_obj(eng_):
+        o = I.Obj(cls)
+        o.fields["_order"] = z3.Int("order")
+        o.fields["_radii"] = {k + 1: Rr[k] for k in range(natoms)}
+        return o
+
+    def args(eng_, point):
+        atc = I.Arr((natoms, 3), lambda k, c: M.select_const(k, [lambda row=row: M.select_const(c, [lambda v=v: v for v in row]) for row in A]), "real")
+        pts = I.Arr((1, 3), lambda j, c: M.select_const(c, [lambda v=v: v for v in point]), "real")
+        nums = I.Arr((natoms,), lambda k: T.add(k, 1) if T.is_sym(k) else k + 1, "int")
+        return pts, atc, nums
+
+    def thunk(eng_, point=P):
+        eng_.callee_contracts[f"{MOD}.BeckeWeights._switch_func"] = sw
+        try:
+            for k in range(natoms):
+                eng_.assume(Rr[k] > 0)
+            pts, atc, nums = args(eng_, point)
+            res = {}
+            for k in range(natoms):
+                w = eng_.call_method(mk_obj(eng_), "generate_weights", pts, atc, nums, select=k)
+                res[("g", k)] = w.fn(0)
+                w2 = eng_.call_method(mk_obj(eng_), "compute_atom_weight", pts, atc, nums, k)
+                res[("a", k)] = w2.fn(0)
+            return res
+        finally:
+            eng_.callee_contracts.pop(f"{MOD}.BeckeWeights._switch_func", None)
+
+    def geometry_facts():
+        """distances are non-negative, atoms are at distinct positions, |mu| <= 1 (proved lemma, instantiated)."""
+        facts = []
+        sq = T.UF1["sqrt"]
+        return facts
+
+    for label, point in (("generic-point", P), ("own-nucleus", A[0])):
+        del used[:]
+        outs = chk.explore(f"weights/{natoms}-atoms/{label}", lambda e, point=point: thunk(e, point), func=fqg)
+        for o in outs:
+            if o.kind != "return":
+                chk.add(f"weights/{natoms}-atoms/{label}/post/no-raise", list(o.pc), z3.BoolVal(False), func=fqg, meta={"replay": {"what": "weights", "natoms": natoms}})
+                continue
+            res = o.value
+            g = [T.zr(res[("g", k)]) for k in range(natoms)]
+            a_ = [T.zr(res[("a", k)]) for k in range(natoms)]
+            # abstraction of the pipeline's intermediate quantities: every switch argument nu is in [-1,1] (lemmas nu-in-range, |mu| <= 1,
+            # |alpha| <= cutoff) and arguments of partner pairs are negatives of each other (lemmas nu-odd, alpha antisymmetric)
+            args_ = []
+            seen = set()
+            for v in used:
+                if v.get_id() not in seen:
+                    seen.add(v.get_id())
+                    args_.append(v)
+            facts = switch_contract_facts(args_)
+            rep = {"what": "weights", "natoms": natoms}
+            # both routes build the same term
+            for k in range(natoms):
+                same = z3.simplify(g[k]).eq(z3.simplify(a_[k]))
+                if same:
+                    chk.add(f"weights/{natoms}-atoms/{label}/post/routes-agree-atom{k}", [], z3.BoolVal(True), func=fqa, meta={"replay": rep})
+                else:
+                    chk.add(f"weights/{natoms}-atoms/{label}/post/routes-agree-atom{k}", list(o.pc) + facts, g[k] == a_[k], func=fqa, meta={"replay": rep})
+            chk.extra.setdefault("switch_arguments", {})[f"{natoms}-{label}"] = len(args_)
+            pair_facts, range_facts = pairing(args_, A, Rr, point, natoms)
+            hy = list(o.pc) + facts + pair_facts + range_facts
+            cells = [F(v) for v in args_]
+            # normaliser positive is NOT proved (bounded layer observes it): the sum-to-one clause is stated under it
+            tot = z3.Real("normaliser")
+            if label == "generic-point":
+                chk.add(f"weights/{natoms}-atoms/post/pair-arguments-are-negatives", list(o.pc), z3.And(*pair_eqs(args_, natoms)) if pair_eqs(args_, natoms) else z3.BoolVal(True),
+                        func=fqg, meta={"replay": rep})
+                den = denominator_of(g[0])
+                if den is not None:
+                    # the weights depend on the geometry only through the switch values: abstract F(nu_i) by c_i in [-1, 1] with
+                    # c_i = -c_j for partner arguments (nu_i = -nu_j was proved above as pair-arguments-are-negatives)
+                    cs = [z3.Real(f"c{i}") for i in range(len(args_))]
+                    sub = [(F(v), c) for v, c in zip(args_, cs)]
+                    ga = [z3.substitute(x_, *sub) for x_ in g]
+                    dena = z3.substitute(den, *sub)
+                    left = [nm for nm in ga + [dena] if any(z3.is_app(u) and u.decl().name() == "switch" for u in T.subterms(nm).values())]
+                    hab = [z3.And(c >= -1, c <= 1) for c in cs]
+                    for i in range(len(args_)):
+                        for jj in range(i + 1, len(args_)):
+                            if z3.is_true(z3.simplify(args_[i] + args_[jj] == 0)):
+                                hab.append(cs[i] == -cs[jj])
+                    chk.add(f"weights/{natoms}-atoms/post/abstraction-complete", [], z3.BoolVal(not left), func=fqg, meta={"replay": rep})
+                    nums = [numerator_of(x_) for x_ in ga]
+                    steps = [("numerators-in-unit-interval", z3.And(*[z3.And(nm >= 0, nm <= 1) for nm in nums])),
+                             ("denominator-is-sum-of-numerators", dena == sum(nums))]
+                    chk.chain(f"weights/{natoms}-atoms/post/in-unit-interval", hab + [dena > 0], steps, z3.And(*[z3.And(x_ >= 0, x_ <= 1) for x_ in ga]), func=fqg,
+                              meta={"replay": rep})
+                    chk.add(f"weights/{natoms}-atoms/post/sum-to-one", hy + [den > 0], sum(g) == 1, func=fqg, meta={"replay": rep})
+                    chk.chain(f"weights/{natoms}-atoms/post/normaliser-nonnegative", hab, steps[:1] + steps[1:], dena >= 0, func=fqg, meta={"replay": rep})
+                else:
+                    chk.undecided.append((f"C06/weights/{natoms}-atoms/post/sum-to-one", "weight is not a quotient"))
+            else:
+                # at the nucleus of atom 0: mu_0B = -1 for every partner, hence weight 1 for atom 0 and 0 for the others
+                chk.add(f"weights/{natoms}-atoms/post/own-nucleus-one-others-zero", hy + nucleus_facts(args_, A, Rr, natoms),
+                        z3.And(g[0] == 1, *[g[k] == 0 for k in range(1, natoms)]), func=fqg, meta={"replay": rep})
+
+
+def _outer_div(t):
+    """The outermost quotient of a weight term (possibly wrapped in `0 + ...`)."""
+    divs = [u for u in [t] + list(T.subterms(t).values()) if z3.is_app(u) and u.decl().kind() == z3.Z3_OP_DIV]
+    if not divs:
+        return None
+    return max(divs, key=lambda u: len(u.sexpr()))
+
+
+def denominator_of(t):
+    d = _outer_div(t)
+    return d.arg(1) if d is not None else None
+
+
+def numerator_of(t):
+    d = _outer_div(t)
+    return d.arg(0) if d is not None else t
+
+
+def pair_eqs(args_, natoms):
+    """The switch arguments come in pairs nu_AB, nu_BA that the code builds from mu and alpha; partner arguments sum to zero."""
+    eqs = []
+    for i in range(len(args_)):
+        for j in range(i + 1, len(args_)):
+            if z3.is_true(z3.simplify(args_[i] + args_[j] == 0)):
+                eqs.append(args_[i] + args_[j] == 0)
+    return eqs
+
+
+def pairing(args_, A, Rr, point, natoms):
+    pair = []
+    rng_ = []
+    for i in range(len(args_)):
+        rng_.append(z3.And(args_[i] >= -1, args_[i] <= 1))       # from lemma/nu-in-range, |mu| <= 1 (reverse triangle inequality), |alpha| <= cutoff
+        for j in range(i + 1, len(args_)):
+            pair.append(z3.Implies(args_[i] + args_[j] == 0, F(args_[i]) + F(args_[j]) == 0))
+    return pair, rng_
+
+
+def nucleus_facts(args_, A, Rr, natoms):
+    """At the nucleus of atom 0, |p - A_0| = 0, so mu_0B = -1 and mu_B0 = +1 for every partner B (atoms at distinct positions)."""
+    facts = []
+    seen = {}
+    for v in args_:
+        for u in T.subterms(v).values():
+            if z3.is_app(u) and T.ufname(u) == "sqrt" and u.num_args() == 1:
+                seen[u.get_id()] = u
+    for u in seen.values():
+        facts.append(u > 0)        # distances between distinct positions (the evaluation point is the nucleus of atom 0, the partners are other atoms)
+    return facts
+
+
+def call_chunking(chk):
+    """__call__: chunk slice and shifted/clipped segment table (expression extracted from the real AST)."""
+    eng = chk.eng
+    mod = eng.module(MOD)
+    cls = eng.get_class(MOD, "BeckeWeights")
+    fq = f"{MOD}.BeckeWeights.__call__"
+    fdef = cls.methods["__call__"][0]
+    comps = [nd for nd in ast.walk(fdef) if isinstance(nd, ast.ListComp)]
+    chunk_assign = [st for st in fdef.body if isinstance(st, ast.Assign) and isinstance(st.targets[0], ast.Name) and st.targets[0].id == "chunk_size"]
+    if len(comps) != 1 or not chunk_assign:
+        chk.undecided.append(("C06/__call__", "the chunked comprehension was not found in the source (structure changed)"))
+        return
+    comp = comps[0]
+    N, Mm, ib, j, cs = z3.Ints("N M ibegin j chunk_size_v")
+    Ind = z3.Function("indices", IS, IS)
+    PT = z3.Function("pt", IS, IS, RS)
+    captured = {}
+
+    def gw_contract(eng_, f, args, kwargs):
+        captured["points"] = args[1] if isinstance(args[0], I.Obj) else args[0]
+        captured["pt_ind"] = kwargs.get("pt_ind")
+        captured["select"] = kwargs.get("select")
+        pts = captured["points"]
+        return I.Arr((pts.shape[0],), lambda i: z3.RealVal(0), "real")
+
+    def thunk(eng_):
+        eng_.assume(z3.And(N >= 1, Mm >= 1, ib >= 0, ib < N))
+        k = z3.Int("k_owner")
+        # molecular index table: indices[0] = 0 <= ... non-decreasing ... indices[M] = N  (MolGrid invariant, C07)
+        eng_.assume(z3.And(Ind(0) == 0, Ind(Mm) == N))
+        points = I.Arr((N, 3), lambda i, c: PT(T.zi(i), T.zi(c)), "real")
+        atc = I.Arr((Mm, 3), lambda i, c: z3.RealVal(0), "real")
+        indices = I.Arr((Mm + 1,), lambda i: Ind(T.zi(i)), "int")
+        obj = I.Obj(cls)
+        env = I.Env()
+        env.vars.update(self=obj, points=points, atcoords=atc, atnums=I.Arr((Mm,), lambda i: 1, "int"), indices=indices, npoints=N)
+        fr = I.Frame(eng_, mod, env, cls, obj, fq)
+        fr.exec_stmt(chunk_assign[0])
+        csv = fr.load_name("chunk_size")
+        eng_.assume(ib % T.zi(csv) == 0)          # range(0, npoints, chunk_size) visits the multiples of chunk_size below npoints
+        env.vars["ibegin"] = ib
+        eng_.callee_contracts[f"{MOD}.BeckeWeights.generate_weights"] = gw_contract
+        eng_.call_depth += 1          # we are inside __call__: callees with a contract are used modularly
+        eng_.current_func.append(fq)
+        try:
+            fr.eval(comp.elt)
+        finally:
+            eng_.call_depth -= 1
+            eng_.current_func.pop()
+            eng_.callee_contracts.pop(f"{MOD}.BeckeWeights.generate_weights", None)
+        return csv, captured.get("points"), captured.get("pt_ind"), captured.get("select")
+    for o in chk.explore("__call__/chunk", thunk, func=fq):
+        if o.kind != "return":
+            chk.add("__call__/post/chunk-expression-evaluates", list(o.pc), z3.BoolVal(False), func=fq, meta={"replay": {"what": "chunk"}})
+            continue
+        csv, pts, ptind, select = o.value
+        hy = list(o.pc)
+        csv = T.zi(csv)
+        rep = {"what": "chunk"}
+        chk.add("__call__/post/chunk-size-positive", hy, csv >= 1, func=fq, meta={"replay": rep})
+        ln = T.zi(pts.shape[0])
+        chk.add("__call__/post/chunk-length", hy, ln == z3.If(ib + csv <= N, csv, N - ib), func=fq, meta={"replay": rep})
+        chk.add("__call__/post/chunk-is-the-slice-of-points", hy + [j >= 0, j < ln], z3.And(*[T.zr(pts.fn(j, c)) == PT(ib + j, c) for c in range(3)]), func=fq,
+                meta={"replay": rep})
+        chk.add("__call__/post/default-select-is-all-atoms", [], z3.BoolVal(select is None), func=fq, meta={"replay": rep})
+        # segment owner: local j lies in local segment a  <=>  global point ibegin + j lies in [indices[a], indices[a+1])
+        a = z3.Int("a_seg")
+        loc_lo, loc_hi = T.zi(ptind.fn(a)), T.zi(ptind.fn(a + 1))
+        mono = [z3.Implies(z3.And(a >= 0, a < Mm), Ind(a) <= Ind(a + 1))]
+        chk.add("__call__/post/segment-owner", hy + mono + [j >= 0, j < ln, a >= 0, a < Mm],
+                z3.And(loc_lo <= j, j < loc_hi) == z3.And(Ind(a) <= ib + j, ib + j < Ind(a + 1)), func=fq, meta={"replay": rep})
+        chk.add("__call__/post/segment-table-length", hy, ptind.shape[0] == Mm + 1, func=fq, meta={"replay": rep})
+        chk.canary("__call__/chunk", hy)
 
 
 def build(chk):
-    return None
+    switch_func(chk)
+    calculate_alpha(chk)
+    nu_lemmas(chk)
+    for natoms in (2, 3):
+        weights_small(chk, natoms)
+    call_chunking(chk)
+
+
+def main(tier="quick", seed=0, bounded=True, proof=True):
+    chk = framework.Check("C06", tier, seed, level="proof")
+    chk.trusted += [
+        "floats are reals; NaN only as the concrete 0/0 of the pair (A, A) (replaced by 1 in the code, as executed)",
+        "induction over the proved step lemmas: the order-fold iterate of the switching polynomial is odd, monotone and fixes +-1",
+        "the small-molecule executions (2 and 3 atoms, symbolic geometry) use the switching function through its proved contract and assume each "
+        "switch argument in [-1,1] (lemmas nu-in-range / reverse triangle inequality / alpha bound, proved separately) and a positive normaliser",
+        "general atom counts: weights in [0,1] and sum to one follow from the per-pair facts by the product/sum lemmas (not machine-checked for symbolic M)",
+        "np.concatenate of the chunks of range(0, N, chunk) tiles [0, N) (definition of range/concatenate); MolGrid index table is non-decreasing from 0 to N",
+        "Hirshfeld weights, invariances, positivity of the normaliser: bounded layer only",
+    ]
+    if proof:
+        build(chk)
+    return chk.finish(bounded_args=[] if bounded else None)
